@@ -4,6 +4,7 @@ package tr
 
 import (
 	"bufio"
+	"bytes"
 	"encoding/json"
 	"os"
 	"sync"
@@ -54,6 +55,13 @@ func (t *Writer) Emit(r Rec) {
 	if err != nil {
 		panic(err)
 	}
+	if bytes.Contains(b, []byte("null")) {
+		// the TLA+ Json module cannot read null: replace every JSON null by the string "null"
+		var v interface{}
+		if json.Unmarshal(b, &v) == nil {
+			b, _ = json.Marshal(denull(v))
+		}
+	}
 	t.w.Write(b)
 	t.w.WriteByte('\n')
 	t.Lines++
@@ -99,4 +107,22 @@ type Summary struct {
 	Extra       Rec           `json:"extra,omitempty"`
 	Direct      []Rec         `json:"direct,omitempty"` // violations observed directly by the driver (crash, hang)
 	Divergences int           `json:"divergences"`
+}
+
+func denull(v interface{}) interface{} {
+	switch x := v.(type) {
+	case nil:
+		return "null"
+	case map[string]interface{}:
+		for k, e := range x {
+			x[k] = denull(e)
+		}
+		return x
+	case []interface{}:
+		for i, e := range x {
+			x[i] = denull(e)
+		}
+		return x
+	}
+	return v
 }
